@@ -10,3 +10,4 @@ import Hifi.Props.C12
 import Hifi.Props.C15
 import Hifi.Props.C16
 import Hifi.Props.C20
+import Hifi.Props.C07
